@@ -69,11 +69,11 @@ std::string sub(const std::string &s, uint64_t pos, uint64_t n) {
     if (pos == NPOS || pos > s.size()) return "";
     return s.substr((size_t)pos, n == NPOS ? std::string::npos : (size_t)n);
 }
-// does the first difference between a and b involve exactly one byte >= 0x80 ?
+// does the first difference between a and b involve a byte >= 0x80 ?
 bool highBitDiff(const std::string &a, const std::string &b) {
     size_t i = 0; while (i < a.size() && i < b.size() && a[i] == b[i]) ++i;
     const unsigned x = i < a.size() ? (unsigned char)a[i] : 0, y = i < b.size() ? (unsigned char)b[i] : 0;
-    return (x >= 0x80) != (y >= 0x80);
+    return x >= 0x80 || y >= 0x80;
 }
 
 struct Stop {}; // thrown by the checker to end the case after a violation
@@ -89,6 +89,7 @@ void run(Ctx &ctx, const std::string &w) {
     int throwsSeen = 0, skipped = 0;
     std::string feat = "V" + std::to_string(nv);
     bool dead = false;
+    bool zeroRawAppend = false; // rawAppendStart(0)+rawAppendFinish(,0) happened earlier in this history
 
     auto idx = [&](uint64_t x) { return (int)(x % (uint64_t)nv); };
 
@@ -97,7 +98,7 @@ void run(Ctx &ctx, const std::string &w) {
         const std::string &c = o.code;
         auto where = [&]() { return "step " + std::to_string(step) + " '" + encOp(o) + "': "; };
         bool wrapsNow = false;
-        auto fail = [&](const std::string &key, const std::string &detail) { ctx.violation(wrapsNow ? std::string("chop:pos+n-wraps-size_type") : key, where() + detail); dead = true; throw Stop(); };
+        auto fail = [&](const std::string &key, const std::string &detail) { ctx.violation(wrapsNow ? std::string("chop:pos+n-wraps-size_type") : zeroRawAppend ? std::string("rawAppendFinish:zero-size-append-shrinks-shared-blob") : key, where() + detail + (zeroRawAppend && !wrapsNow ? " [after rawAppendStart(0)/rawAppendFinish(,0) earlier in this history]" : "")); dead = true; throw Stop(); };
         // observers change no state: report and carry on with the script
         auto soft = [&](const std::string &key, const std::string &detail) { ctx.violation(key, where() + detail); };
         auto expectEq = [&](const char *what, uint64_t got, uint64_t exp) { if (got != exp) fail(c + ":" + what, std::string(what) + " returned " + num(got) + ", std::string model gives " + num(exp)); };
@@ -175,7 +176,7 @@ void run(Ctx &ctx, const std::string &w) {
                 else if (c == "ra") {
                     const size_t n = std::max<size_t>(std::min<size_t>(o.a[1], 5000), o.bytes.size());
                     if (m[i].size() + n > Cap) ++skipped;
-                    else { char *space = v[i].rawAppendStart((SBuf::size_type)n); memcpy(space, o.bytes.data(), o.bytes.size()); v[i].rawAppendFinish(space, (SBuf::size_type)o.bytes.size()); m[i] += o.bytes; }
+                    else { if (!n) zeroRawAppend = true; char *space = v[i].rawAppendStart((SBuf::size_type)n); memcpy(space, o.bytes.data(), o.bytes.size()); v[i].rawAppendFinish(space, (SBuf::size_type)o.bytes.size()); m[i] += o.bytes; }
                 }
                 else if (c == "cs") {
                     const char *z = v[i].c_str();
@@ -196,7 +197,7 @@ void run(Ctx &ctx, const std::string &w) {
                     const int got = sgn(n == NPOS && (o.a[2] & 2) ? (ci ? v[i].caseCmp(v[j]) : v[i].cmp(v[j])) : v[i].compare(v[j], ci ? caseInsensitive : caseSensitive, (SBuf::size_type)n));
                     if (got != exp) {
                         const bool hb = highBitDiff(A, B);
-                        soft(std::string(ci ? "caseCmp" : "cmp") + (exp == 0 || got == 0 ? ":equality" : hb ? ":sign:highbit" : ":sign"),
+                        soft(std::string(ci ? "caseCmp" : "cmp") + (exp == 0 || got == 0 ? ":equality" : hb ? ":sign:8bit" : ":sign"),
                              std::string("compare(") + (ci ? "caseInsensitive" : "caseSensitive") + ", n=" + num(n) + ") of '" + vh::show(m[i], 40) + "' with '" + vh::show(m[j], 40) + "' has sign " + std::to_string(got) + ", model (unsigned bytes, as std::string/strcmp) " + std::to_string(exp));
                     }
                 }
@@ -212,7 +213,7 @@ void run(Ctx &ctx, const std::string &w) {
                         const int got = sgn(v[i].compare(z.c_str(), ci ? caseInsensitive : caseSensitive, (SBuf::size_type)n));
                         if (got != exp) {
                             const bool hb = highBitDiff(A, B);
-                            soft(std::string("compare-cstr") + (exp == 0 || got == 0 ? ":equality" : hb ? ":sign:highbit" : ":sign"),
+                            soft(std::string("compare-cstr") + (exp == 0 || got == 0 ? ":equality" : hb ? ":sign:8bit" : ":sign"),
                                  std::string("compare(const char*, ") + (ci ? "caseInsensitive" : "caseSensitive") + ", n=" + num(n) + ") of '" + vh::show(m[i], 40) + "' with \"" + vh::show(z, 40) + "\" has sign " + std::to_string(got) + ", model (unsigned bytes, as std::string/strcmp) " + std::to_string(exp));
                         }
                     }
@@ -328,7 +329,7 @@ std::string gen(Rng &r) {
         else if (c == "rs") { o.a = {i, r.chance(1, 4) ? SBuf::maxSize - li + r.range(-2, 3) : r.chance(1, 8) ? NPOS - r.below(3) : r.below(r.chance(1, 5) ? 5000 : 64)}; }
         else if (c == "rc") { o.a = {i, r.chance(1, 4) ? SBuf::maxSize + 1 + r.below(3) : r.chance(1, 8) ? NPOS - r.below(3) : r.below(r.chance(1, 5) ? 5000 : 64)}; }
         else if (c == "rq") { static const uint64_t caps[] = {0, 1, 64, 5000, SBuf::maxSize}; o.a = {i, r.below(r.chance(1, 4) ? 5000 : 40), r.below(r.chance(1, 4) ? 5000 : 40), r.chance(1, 3) ? li + r.below(4) : caps[r.below(5)], r.below(2)}; }
-        else if (c == "ra") { o.bytes = bytes(r.chance(1, 10) ? 300 : 12); o.a = {i, o.bytes.size() + (r.coin() ? 0 : r.below(200))}; len[i] = li + o.bytes.size(); }
+        else if (c == "ra") { o.bytes = bytes(r.chance(1, 10) ? 300 : 12); o.a = {i, o.bytes.size() + (r.coin() ? 0 : r.below(200))}; if (!o.a[1] && !r.chance(1, 8)) o.a[1] = 1 + r.below(9); /* rawAppendStart(0) is a known trouble spot: keep it rare */ len[i] = li + o.bytes.size(); }
         else if (c == "at") { o.a = {i, r.chance(2, 3) && li ? r.below(li) : pos(li)}; }
         else if (c == "cm") { o.a = {i, j, r.below(4), r.chance(1, 2) ? NPOS : pos(std::min(li, lj))}; }
         else if (c == "cz") { o.a = {i, r.below(2), r.chance(1, 2) ? NPOS : pos(li)}; o.bytes = cstrOf(bytes(12)); }
